@@ -18,8 +18,9 @@ theorem J.right_bind {α : Type} {L : Nat} {x : R St} {z : R α} {f : α → R S
 theorem Rel.congrP {L : Nat} {c p p' : St} (h : Rel L c p) (h1 : p'.counting = p.counting) (h2 : p'.prev = p.prev)
     (h3 : p'.prevPos = p.prevPos) (h4 : p'.gross = p.gross) (h5 : p'.pos = p.pos) (h6 : p'.progLen = p.progLen)
     (h7 : p'.nBrk = p.nBrk) (h8 : p'.nCont = p.nCont) (h9 : p'.canBreak = p.canBreak)
-    (h10 : p'.canContinue = p.canContinue) (h11 : p'.switchDepth = p.switchDepth) : Rel L c p' :=
-  ⟨h.cc, h1.trans h.pc, h.w.congr rfl rfl h2 h3, by rw [h4]; exact h.gross, by rw [h4, h5]; exact h.pos, h6.trans h.len,
+    (h10 : p'.canContinue = p.canContinue) (h11 : p'.switchDepth = p.switchDepth)
+    (hbk : BOk p → BOk p' := by exact fun hb => ⟨hb.rsize, hb.rcur, hb.bsize⟩) : Rel L c p' :=
+  ⟨h.cc, h1.trans h.pc, h.w.congr rfl rfl h2 h3 (fun hb => ⟨hb.rsize, hb.rcur, hb.bsize⟩) hbk, by rw [h4]; exact h.gross, by rw [h4, h5]; exact h.pos, h6.trans h.len,
     h.nb.trans h7.symm, h.nc.trans h8.symm, h.cb.trans h9.symm, h.cct.trans h10.symm, h.sd.trans h11.symm⟩
 
 theorem Rel.leave {L : Nat} {c p : St} (h : Rel L c p) (o1 o2 : SetRef) (s1 s2 : LabelSet) :
